@@ -119,6 +119,9 @@ type vPipeCase struct {
 	// Reports: before the blocks with these numbers the status reports are computed as the RPC layer does after a client's request
 	// (full trigger state, group-trigger state, writing state): reading the state must not change what happens to the data
 	Reports []int `json:"reports,omitempty"`
+	// ViaRPC: trigger and record-length requests reach the source as a client's do, through the methods of a real SourceControl
+	// (which converts compatibility fields, validates, queues the request for the core loop and reports the new state)
+	ViaRPC bool `json:"via_rpc,omitempty"`
 }
 
 func vNoise(seed, i int) int {
@@ -339,6 +342,39 @@ func vRunPipe(c *vPipeCase, observe func(tr *vTrace, k int, recs []*DataRecord) 
 	}
 	tr := &vTrace{Truth: c.truth(), T0: vPipeT0, Period: time.Duration(c.PeriodNs)}
 	ds := &AnySource{nchan: c.Nchan, name: "verif"}
+	var rpc *SourceControl
+	if c.ViaRPC && !c.Lancero {
+		holder := newScripted(c.Nchan, time.Millisecond, 48) // only its embedded AnySource is used: it makes the source a DataSource for the RPC layer
+		ds = &holder.AnySource
+		ds.name = "verif"
+		rpc = NewSourceControl()
+		rpc.clientUpdates = clientMessageChan
+		rpc.ActiveSource = holder
+		rpc.isSourceActive = true
+		rpc.status.Npresamp, rpc.status.Nsamples = c.Npre, c.Nsamp
+		rpc.status.Running = true
+		ds.sourceState = Active
+	}
+	// serveOne plays the core loop for one queued request
+	serveOne := func() chan struct{} {
+		done := make(chan struct{})
+		go func() {
+			defer close(done)
+			select {
+			case f := <-rpc.queuedRequests:
+				f()
+			case <-time.After(2 * time.Second):
+			}
+		}()
+		return done
+	}
+	release := func(done chan struct{}) {
+		select {
+		case <-done:
+		case rpc.queuedRequests <- func() {}:
+			<-done
+		}
+	}
 	var ls *LanceroSource
 	if c.Lancero {
 		ls = &LanceroSource{}
@@ -426,7 +462,17 @@ func vRunPipe(c *vPipeCase, observe func(tr *vTrace, k int, recs []*DataRecord) 
 					}
 					fts.EMTState = st
 				}
-				if err := ds.ChangeTriggerState(&fts); err != nil {
+				if rpc != nil {
+					raw := FullTriggerState{ChannelIndices: append([]int(nil), h.Chans...), TriggerState: h.Trig.state()}
+					done := serveOne()
+					var ok bool
+					err := rpc.ConfigureTriggers(&raw, &ok)
+					release(done) // (a request refused before it was queued leaves the stand-in core loop waiting)
+					if err != nil {
+						f := vFailf("config-rejected", "valid trigger configuration %+v rejected by the ConfigureTriggers request: %v", h.Trig, err)
+						return tr, &f
+					}
+				} else if err := ds.ChangeTriggerState(&fts); err != nil {
 					f := vFailf("config-rejected", "valid trigger configuration %+v rejected: %v", h.Trig, err)
 					return tr, &f
 				}
@@ -436,7 +482,16 @@ func vRunPipe(c *vPipeCase, observe func(tr *vTrace, k int, recs []*DataRecord) 
 					epoch[ch] = pos
 				}
 			case "lengths":
-				if err := ds.ConfigurePulseLengths(h.Nsamp, h.Npre); err != nil {
+				var lerr error
+				if rpc != nil {
+					done := serveOne()
+					var ok bool
+					lerr = rpc.ConfigurePulseLengths(SizeObject{Nsamp: h.Nsamp, Npre: h.Npre}, &ok)
+					release(done) // answered without queueing (no change, or refused at once)?
+				} else {
+					lerr = ds.ConfigurePulseLengths(h.Nsamp, h.Npre)
+				}
+				if err := lerr; err != nil {
 					f := vFailf("config-rejected", "valid pulse lengths %d/%d rejected: %v", h.Nsamp, h.Npre, err)
 					return tr, &f
 				}
@@ -447,7 +502,16 @@ func vRunPipe(c *vPipeCase, observe func(tr *vTrace, k int, recs []*DataRecord) 
 			case "trylengths":
 				// lengths that (by the documented validity rule) some edge-multi channel cannot work with: the request must be
 				// refused as a whole and then change nothing on any channel; were it accepted, it is an ordinary length change
-				if err := ds.ConfigurePulseLengths(h.Nsamp, h.Npre); err == nil {
+				var terr error
+				if rpc != nil {
+					done := serveOne()
+					var ok bool
+					terr = rpc.ConfigurePulseLengths(SizeObject{Nsamp: h.Nsamp, Npre: h.Npre}, &ok)
+					release(done)
+				} else {
+					terr = ds.ConfigurePulseLengths(h.Nsamp, h.Npre)
+				}
+				if err := terr; err == nil {
 					npre, nsamp = h.Npre, h.Nsamp
 					for ch := range epoch {
 						epoch[ch] = pos
